@@ -34,7 +34,7 @@ type Opts struct {
 
 var lenBoundaries = []int{127, 128, 255, 256}
 var lenBig = []int{16383, 16384}
-var lenHuge = []int{65534, 65535}
+var lenHuge = []int{65532, 65533, 65534, 65535}
 
 // Len draws a string/binary length, boundary-biased.
 func Len(t *rapid.T, label string, o Opts) int {
@@ -567,7 +567,9 @@ func Packet(t *rapid.T, typ uint8, o Opts) model.Packet {
 		for i := 0; i < n; i++ {
 			var f model.Filter
 			if o.SpecValid || o.WellFormed {
-				f.Filter = Topic(t, "filter", inner, true)
+				// an empty filter string is inside the length limits (and the
+				// library stores it); only spec-valid frames never carry one
+				f.Filter = Topic(t, "filter", inner, o.SpecValid || rapid.IntRange(0, 11).Draw(t, "emptyfilter") != 0)
 				f.Opts = uint8(rapid.IntRange(0, 2).Draw(t, "fqos")) |
 					uint8(rapid.IntRange(0, 3).Draw(t, "fnlrap"))<<2 |
 					uint8(rapid.IntRange(0, 2).Draw(t, "fretain"))<<4
@@ -578,6 +580,15 @@ func Packet(t *rapid.T, typ uint8, o Opts) model.Packet {
 			m.Filters = append(m.Filters, f)
 		}
 		m.UserProps = UserProps(t, "up", o)
+		if !o.SpecValid && len(m.Filters) >= 2 && rapid.IntRange(0, 3).Draw(t, "oneempty") == 0 {
+			k := rapid.IntRange(0, len(m.Filters)-1).Draw(t, "emptyat")
+			for i := range m.Filters {
+				if m.Filters[i].Filter == "" {
+					m.Filters[i].Filter = "f"
+				}
+			}
+			m.Filters[k].Filter = ""
+		}
 	case model.SUBACK, model.UNSUBACK:
 		m.PacketID = U16(t, "packetid")
 		if o.SpecValid && m.PacketID == 0 {
@@ -611,12 +622,21 @@ func Packet(t *rapid.T, typ uint8, o Opts) model.Packet {
 		}
 		for i := 0; i < n; i++ {
 			if o.SpecValid || o.WellFormed {
-				m.UnsubFilters = append(m.UnsubFilters, Topic(t, "filter", inner, true))
+				m.UnsubFilters = append(m.UnsubFilters, Topic(t, "filter", inner, o.SpecValid || rapid.IntRange(0, 11).Draw(t, "emptyfilter") != 0))
 			} else {
 				m.UnsubFilters = append(m.UnsubFilters, Topic(t, "filter", inner, false))
 			}
 		}
 		m.UserProps = UserProps(t, "up", o)
+		if !o.SpecValid && len(m.UnsubFilters) >= 2 && rapid.IntRange(0, 3).Draw(t, "oneempty") == 0 {
+			k := rapid.IntRange(0, len(m.UnsubFilters)-1).Draw(t, "emptyat")
+			for i := range m.UnsubFilters {
+				if m.UnsubFilters[i] == "" {
+					m.UnsubFilters[i] = "f"
+				}
+			}
+			m.UnsubFilters[k] = ""
+		}
 	case model.PINGREQ, model.PINGRESP:
 	case model.DISCONNECT:
 		m.ReasonCode = ReasonCode(t, "reason")
